@@ -54,12 +54,14 @@ Proof.
     assert (1 <= 2 ^ (64 - r)) by (apply N.lt_pred_le, N.neq_0_lt_0, N.pow_nonzero; lia). nia.
 Qed.
 
+Ltac split4 := split; [|split; [|split]].
+
 Definition wf (s : sip) : Prop := v0 s < m64 /\ v1 s < m64 /\ v2 s < m64 /\ v3 s < m64.
 
 Lemma sipround_wf : forall s, wf s -> wf (sipround s).
 Proof.
   intros s (H0 & H1 & H2 & H3). unfold sipround, wf. cbn [v0 v1 v2 v3].
-  repeat split;
+  split4;
     repeat first [apply add64_lt | apply rotl64_lt | apply (lxor_lt_pow2 _ _ 64) | assumption].
 Qed.
 
@@ -69,12 +71,13 @@ Proof. induction n as [|n IH]; intros s H; cbn [rounds]; [exact H|]. apply IH, s
 Lemma absorb_wf : forall c s m, wf s -> m < m64 -> wf (absorb c s m).
 Proof.
   intros c s m (H0 & H1 & H2 & H3) Hm. unfold absorb.
-  set (s1 := rounds c _).
-  assert (Hs1 : wf s1).
-  { apply rounds_wf. unfold wf. cbn [v0 v1 v2 v3]. repeat split; try assumption.
+  assert (Hin : wf (mkSip (v0 s) (v1 s) (v2 s) (N.lxor (v3 s) m))).
+  { unfold wf. cbn [v0 v1 v2 v3]. split4; try assumption.
     apply (lxor_lt_pow2 _ _ 64); assumption. }
-  destruct Hs1 as (A0 & A1 & A2 & A3). unfold wf. cbn [v0 v1 v2 v3].
-  repeat split; try assumption. apply (lxor_lt_pow2 _ _ 64); assumption.
+  pose proof (rounds_wf c _ Hin) as Hs1.
+  destruct (rounds c (mkSip (v0 s) (v1 s) (v2 s) (N.lxor (v3 s) m))) as [a0 a1 a2 a3].
+  unfold wf in *. cbn [v0 v1 v2 v3] in *. destruct Hs1 as (A0 & A1 & A2 & A3).
+  split4; try assumption. apply (lxor_lt_pow2 _ _ 64); assumption.
 Qed.
 
 Lemma le_word_lt : forall bs, le_word bs < 256 ^ N.of_nat (length bs).
@@ -103,7 +106,7 @@ Qed.
 Lemma sip_init_wf : forall k0 k1, k0 < m64 -> k1 < m64 -> wf (sip_init k0 k1).
 Proof.
   intros k0 k1 H0 H1. unfold sip_init, wf. cbn [v0 v1 v2 v3].
-  repeat split; apply (lxor_lt_pow2 _ _ 64); try assumption; reflexivity.
+  split4; apply (lxor_lt_pow2 _ _ 64); try assumption; reflexivity.
 Qed.
 
 (** The hash is a 64-bit value for every message (so [as usize] loses nothing on a 64-bit target). *)
@@ -118,12 +121,15 @@ Proof.
     assert (256 ^ N.of_nat (length tail) <= 256 ^ 7) by (apply N.pow_le_mono_r; lia).
     assert (N.of_nat (length msg) mod 256 < 256) by (apply N.mod_lt; discriminate).
     change (256 ^ 7) with (2 ^ 56) in *. change m64 with (256 * 2 ^ 56). nia. }
-  pose proof (absorb_wf c s b Hs Hb) as (A0 & A1 & A2 & A3).
-  set (s2 := rounds d _).
-  assert (Hs2 : wf s2).
-  { apply rounds_wf. unfold wf. cbn [v0 v1 v2 v3]. repeat split; try assumption.
+  pose proof (absorb_wf c s b Hs Hb) as Ha.
+  destruct (absorb c s b) as [a0 a1 a2 a3]. unfold wf in Ha. cbn [v0 v1 v2 v3] in *.
+  destruct Ha as (A0 & A1 & A2 & A3).
+  assert (Hin : wf (mkSip a0 a1 (N.lxor a2 255) a3)).
+  { unfold wf. cbn [v0 v1 v2 v3]. split4; try assumption.
     apply (lxor_lt_pow2 _ _ 64); [assumption|reflexivity]. }
-  destruct Hs2 as (B0 & B1 & B2 & B3).
+  pose proof (rounds_wf d _ Hin) as Hs2.
+  destruct (rounds d (mkSip a0 a1 (N.lxor a2 255) a3)) as [c0 c1 c2 c3].
+  unfold wf in Hs2. cbn [v0 v1 v2 v3] in *. destruct Hs2 as (B0 & B1 & B2 & B3).
   repeat apply (lxor_lt_pow2 _ _ 64); assumption.
 Qed.
 
@@ -153,10 +159,16 @@ Proof.
   rewrite (N.mod_small (default_hash_str ctx)); [reflexivity|]. apply default_hash_str_lt.
 Qed.
 
-(** Known answers.  SipHash-1-3 of the reference message 00 01 .. 0e under the reference key
-    00 .. 0f (vector of the SipHash reference implementation, as used in Rust's core tests), and
-    Rust's [DefaultHasher] on "" and "a" (observed on the pinned toolchain). *)
-Example siphash13_reference_vector :
+(** Known answers.  SipHash-1-3 under the reference key 00 .. 0f of the messages (), 00..07 and
+    00..0e: entries 0, 8 and 15 of the vector table of Rust's core tests ([test_siphash_1_3]);
+    and Rust's [DefaultHasher] on "" and "a" as observed on the pinned toolchain. *)
+Example siphash13_reference_vectors :
+  siphash 1 3 506097522914230528 1084818905618843912 [] = 12370263754033579228 /\
+  siphash 1 3 506097522914230528 1084818905618843912 [0;1;2;3;4;5;6;7] = 3931806377309739662 /\
   siphash 1 3 506097522914230528 1084818905618843912
-    [0;1;2;3;4;5;6;7;8;9;10;11;12;13;14] = 0.
-Proof. vm_compute. Abort.
+    [0;1;2;3;4;5;6;7;8;9;10;11;12;13;14] = 15213397504630561110.
+Proof. vm_compute. repeat split; reflexivity. Qed.
+
+Example default_hasher_known_answers :
+  default_hash_str [] = 3476900567878811119 /\ default_hash_str [97] = 8186225505942432243.
+Proof. vm_compute. split; reflexivity. Qed.
